@@ -88,6 +88,16 @@ class PropertyRun:
                 for k, cc in (overrides.get("+contracts") or {}).items():
                     swapped[k] = self.E.contracts.get(k)
                     self.E.contracts[k] = cc
+                esaved = {}
+                for k_, v_ in (overrides.get("+engine") or {}).items():
+                    esaved[k_] = getattr(self.E, k_, None)
+                    setattr(self.E, k_, v_)
+                # field types that hold only in this variant's environment
+                fsaved = {}
+                for cls_, flds in (overrides.get("+fields") or {}).items():
+                    d_ = self.E.classdecl.setdefault(self.E.resolve_class(cls_), {"fields": {}, "open": True, "invariants": []})
+                    fsaved[cls_] = dict(d_["fields"])
+                    d_["fields"].update(flds)
             extra = getattr(mod, "EXTRA_AXIOMS", ())
             tier = self.tier
 
@@ -103,6 +113,10 @@ class PropertyRun:
                         self.E.contracts.pop(k, None)
                     else:
                         self.E.contracts[k] = cc
+                for cls_, flds in fsaved.items():
+                    self.E.classdecl[self.E.resolve_class(cls_)]["fields"] = flds
+                for k_, v_ in esaved.items():
+                    setattr(self.E, k_, v_)
                 self.E.inline_ok.difference_update(inl)
                 for ob in res["obligations"]:
                     ob["name"] = ob["name"] + "[%s]" % variant
